@@ -13,14 +13,23 @@ import (
 // per window and flushed (sorted is NOT applied: the model compares them as a
 // multiset) after the window's quiescence.
 type logger struct {
-	mu    sync.Mutex
-	out   *bufio.Writer // lines are written through at once, so a crash leaves the log so far
-	win   []string
+	mu  sync.Mutex
+	out *bufio.Writer // lines are written through at once, so a crash leaves the log so far
+	win []string
+	// direct: observations are written at once instead of per window (racing mode, where
+	// there are no windows; the order of log lines is then the order of the logger mutex)
+	direct bool
 }
 
 func (l *logger) obs(format string, args ...any) {
 	l.mu.Lock()
-	l.win = append(l.win, "o\t"+fmt.Sprintf(format, args...))
+	if l.direct {
+		l.out.WriteString("o\t" + fmt.Sprintf(format, args...))
+		l.out.WriteByte('\n')
+		l.out.Flush()
+	} else {
+		l.win = append(l.win, "o\t"+fmt.Sprintf(format, args...))
+	}
 	l.mu.Unlock()
 }
 
